@@ -27,6 +27,12 @@ mutant("C03", "array-volume-without-scaling", "src/darsia/measure/integration.py
 """, """                    resize_axis(resize_axis(self.voxel_volume, rows, 0), cols, 1)
                 )
 """, "array volumes resized without the voxel-count scaling: wrong only for data at another resolution")
+mutant("C03", "weights-keep-their-dtype", "src/darsia/measure/integration.py",
+       """        if isinstance(weight, np.ndarray):
+            weight = weight.astype(np.float64)
+""", """        if isinstance(weight, np.ndarray):
+            weight = weight.copy()
+""", "weight arrays enter the voxel volume in their own dtype (float32 / uint8 maps): reverse of D32, whose revert conflicts with D39")
 mutant("C03", "array-cache-compared-with-native-shape", "src/darsia/measure/integration.py",
        """            cached_shape = list(self.cached_voxel_volume.shape)
 """, """            cached_shape = list(self.voxel_volume.shape)
